@@ -106,13 +106,7 @@ fn word(rng: &mut Rng) -> String {
 /// comment delimiters
 fn text_line(rng: &mut Rng, max_words: usize) -> String {
     let n = 1 + rng.usize(max_words.max(1));
-    let mut ws: Vec<String> = (0..n).map(|_| word(rng)).collect();
-    // "tab\there" contains a real tab: keep it as whitespace inside a line
-    for w in ws.iter_mut() {
-        if w == "tab\there" {
-            *w = "tab\there".to_string();
-        }
-    }
+    let ws: Vec<String> = (0..n).map(|_| word(rng)).collect();
     let sep = if rng.chance(1, 8) { "  " } else { " " };
     ws.join(sep)
 }
